@@ -13,6 +13,7 @@ EXTENDS TLSyntax
 CONSTANTS MaxW,        \* weight bound
           MaxCombs,    \* combinators per schema
           MutW,        \* schemas of weight < MutW are mutated (0 = none)
+          LayoutSel,   \* indices of the layouts applied to every complete derivation
           Sem          \* TRUE = only schemas the compiler accepts after the prelude (canonical listing)
 
 VARIABLE st
@@ -147,7 +148,7 @@ Layouts == <<
   [sep |-> "mix",  app |-> "angle", par |-> TRUE,  bin |-> FALSE, ar |-> "plain", arrow |-> FALSE, lead |-> FALSE],
   [sep |-> "crlf", app |-> "paren", par |-> FALSE, bin |-> TRUE,  ar |-> "paren", arrow |-> FALSE, lead |-> FALSE],
   [sep |-> "tab",  app |-> "mix",   par |-> TRUE,  bin |-> FALSE, ar |-> "fold",  arrow |-> TRUE,  lead |-> TRUE] >>
-NLayouts == IF Sem THEN 1 ELSE Len(Layouts)
+ASSUME LayoutSel \subseteq 1..Len(Layouts)
 
 Expected(cs, lay) == IF lay.ar = "fold" THEN [i \in 1..Len(cs) |-> FoldC(cs[i])] ELSE cs
 
@@ -200,7 +201,7 @@ DFinishFn == /\ st.ph \in {"head", "fields"} /\ st.cur.fn
 
 (* a complete derivation is laid out ... *)
 Layout == /\ st.ph = "idle"
-          /\ \E l \in 1..NLayouts : st' = [ph |-> "laid", done |-> st.done, w |-> st.w, l |-> l]
+          /\ \E l \in LayoutSel : st' = [ph |-> "laid", done |-> st.done, w |-> st.w, l |-> l]
 (* ... or its significant tokens (plain layout) are mutated and written with single spaces *)
 Sig0 == SigToks(st.done, Layouts[1])
 Mutate == /\ st.ph = "idle" /\ st.w < MutW /\ ~Sem
